@@ -19,7 +19,7 @@ from vgi_rpc.rpc._common import TransportKind  # noqa: F401  (re-exported name c
 PROPERTY = "C42"
 LEVEL = "model_checking"
 ENCODED = [srv.RpcServer._notify_transport, mw_mod._TransportNotifyMiddleware.process_request]
-BOUNDS = "quick: 2 concurrent first requests, start thread + 2 preemptions; thorough: 3 requests, 3 preemptions; hook in {ok, raises first time, raises always}; statement granularity"
+BOUNDS = "quick: 2 concurrent first requests, symbolic start thread + 1 preemption; thorough: 2 requests with 2 preemptions and 3 requests with 3 preemptions; hook in {ok, raises first time, raises always}; statement granularity"
 OUTSIDE = "Falcon invoking the middleware before the resource; serve() racing with HTTP first requests on one server object (different kinds concurrently); preemption inside a statement"
 ASSUMPTIONS = ["a request whose middleware raised is not dispatched (Falcon contract)"]
 
@@ -82,7 +82,8 @@ def _request(mw, impl, log, i):  # one "first request": middleware, then (if it 
 
 
 def _scenario(n: int, mode: int, first: int, pre):  # type: ignore[no-untyped-def]
-    s = coop.Scheduler(max_steps=300)
+    s = coop.Scheduler(max_steps=300, untraced=True)
+    mode = coop.Scheduler._concretize(mode, 0, 2)  # only the schedule stays symbolic below
     try:
         server, impl = _make_server(mode, s.Lock())
         mw = mw_mod._TransportNotifyMiddleware(server)
@@ -153,11 +154,22 @@ def _replay(n: int, mode: int, first: int, pre) -> str | None:  # type: ignore[n
     return None
 
 
-@cond(q=90, t=300, engine="coop", encoded=ENCODED, bound="2 requests, 2 preemptions",
+@cond(q=90, t=300, engine="coop", encoded=ENCODED, bound="2 requests, symbolic start thread + 1 preemption (covers A|B|A)",
+      replay=lambda a: _replay(2, a["mode"], a["first"], [(a["p1"], 1 - a["first"])]))
+def two_first_requests_k1(mode: int, first: int, p1: int) -> bool:
+    """
+    pre: 0 <= mode <= 2 and 0 <= first <= 1 and 0 <= p1 <= 50
+    post: _
+    """
+    s, server, impl, log = _scenario(2, mode, first, [(p1, 1 - first)])
+    return _verdict(s, server, impl, log, 2, mode)
+
+
+@cond(q=90, t=900, tiers=("thorough",), engine="coop", encoded=ENCODED, bound="2 requests, 2 preemptions",
       replay=lambda a: _replay(2, a["mode"], a["first"], [(a["p1"], 1 - a["first"]), (a["p2"], a["first"])]))
 def two_first_requests(mode: int, first: int, p1: int, p2: int) -> bool:
     """
-    pre: 0 <= mode <= 2 and 0 <= first <= 1 and 0 <= p1 < p2 <= 40
+    pre: 0 <= mode <= 2 and 0 <= first <= 1 and 0 <= p1 < p2 <= 50
     post: _
     """
     s, server, impl, log = _scenario(2, mode, first, [(p1, 1 - first), (p2, first)])
